@@ -339,9 +339,12 @@ func c14Engine(c *lab.Ctx) {
 		c.Exhaustive(false)
 	}
 	order := map[string]int{"before_route": 0, "after_route": 1, "after_choose_host": 2}
+	// one lock for all protocols: the 'y' verdict marks a host unhealthy and the harness heals ALL marked hosts after the case, so two
+	// such cases must not overlap (a heal of one would restore the other's host between its marking and its re-choose)
 	ymu := map[string]*sync.Mutex{}
+	oneLock := &sync.Mutex{}
 	for _, p := range engineProtos {
-		ymu[p] = &sync.Mutex{}
+		ymu[p] = oneLock
 	}
 	var wg sync.WaitGroup
 	const par = 4
